@@ -14,6 +14,7 @@ import (
 	connect "github.com/bufbuild/connect-go"
 	"google.golang.org/protobuf/proto"
 
+	"verifharness/bsched"
 	"verifharness/ev"
 	"verifharness/memhttp"
 	"verifharness/refwire"
@@ -587,12 +588,21 @@ func c08History(t *testing.T, c *ev.Collector, p Proto, kind Kind, hist int, n i
 func TestC08(t *testing.T) {
 	c := ev.New("C08")
 	defer func() { _ = c.Finish() }()
-	c.SetRule("configuration + history enumeration: every registration order of every subset of {alg1,alg2,alg3} on the client x on the handler (gzip always present; 16 x 16) x send-compression {none, gzip, each algorithm incl. unregistered ones} x protocols x {unary, server-stream} (quick: a third of the handler orders per client order, rotating) ; compress-min-bytes t with sizes {0,t-1,t,t+1}; raw requests with every (encoding, accept-encoding) header pair of a menu incl. unknown, empty, spaced and reordered lists; histories of length <= 4 over {valid, corrupt} compressed calls through one shared Client/Handler, request-side and response-side corruption; oracle reads the recorded wire exchange and decompresses with reference implementations; distinct = full tuple, non-trivial = at least one non-default algorithm, threshold or corrupt call")
+	c.SetRule("configuration + history enumeration: every registration order of every subset of {alg1,alg2,alg3} on the client x on the handler (gzip always present; 16 x 16) x send-compression {none, gzip, each algorithm incl. unregistered ones} x protocols x {unary, server-stream} (quick: a third of the handler orders per client order, rotating) ; compress-min-bytes t with sizes {0,t-1,t,t+1}; raw requests with every (encoding, accept-encoding) header pair of a menu incl. unknown, empty, spaced and reordered lists; histories of length <= 4 over {valid, corrupt} compressed calls through one shared Client/Handler, request-side and response-side corruption; plus two valid compressed calls running concurrently under the controlled scheduler (both default schedulers, delay bound 1) after a corrupt one (wrong CRC trailer / truncated data) went through the shared handler; oracle reads the recorded wire exchange and decompresses with reference implementations; distinct = full tuple, non-trivial = at least one non-default algorithm, threshold or corrupt call")
 	c.Assume("custom algorithms are magic-byte XOR codecs so that data decoded with the wrong algorithm never decodes by accident", "memhttp records the exact bytes both sides wrote")
 	if ev.ReplayFile() != "" {
 		var rk c08RawCase
 		if _, err := ev.LoadReplay(&rk); err == nil && rk.Enc != "" {
 			Bubble(t, func() { c08RawCheck(c, rk) })
+			return
+		}
+		var ck c13Case
+		if _, err := ev.LoadReplay(&ck); err == nil && len(ck.Calls) > 0 {
+			c13TestName = "TestC08"
+			solo := c13Solo(t, ck)
+			schedRoundRobin = ck.RR
+			x := runSched(t, ck.Prefix, nil, 20000, func(s *bsched.Sched) any { return c13Body(ck, s) })
+			fmt.Println("replay:", c13Judge(c, ck, x, solo), schedLine(x))
 			return
 		}
 		var k c08Case
@@ -665,6 +675,17 @@ func TestC08(t *testing.T) {
 			}
 		}
 	}
+	// the same clause under concurrency: two valid compressed calls run under the controlled scheduler
+	// after a corrupt one went through the shared handler (both default schedulers, delay bound 1)
+	c13TestName = "TestC08"
+	for _, k := range c13AfterCorrupt() {
+		idx++
+		if !ev.Mine(idx) || c.Expired() {
+			continue
+		}
+		c13Explore(t, c, k)
+	}
+	c13TestName = "TestC13"
 	// histories
 	n := 3
 	if thorough {
